@@ -240,7 +240,7 @@ func (r *run) runChild(k *child, bin string, nshards int) {
 	var cmd *exec.Cmd
 	if ph.Strace {
 		k.straceF = filepath.Join(r.dir, tag+".strace")
-		sargs := append([]string{"-f", "-qq", "-o", k.straceF, "-e", "trace=write,openat,open,creat,socket,connect,unlink,unlinkat,rename,renameat,mkdir,mkdirat,execve,sendto,sendmsg", bin}, args...)
+		sargs := append([]string{"-f", "-qq", "-o", k.straceF, bin}, args...)
 		cmd = exec.Command("strace", sargs...)
 	} else {
 		cmd = exec.Command(bin, args...)
@@ -618,6 +618,7 @@ func (r *run) finish() int {
 			nd++
 		}
 	}
+	nd += int(r.counters["distinct_by_construction"])
 	// floors
 	var unmet []string
 	floorMap := map[string]any{}
